@@ -102,6 +102,10 @@ pub enum VecOp {
     AddSmall(u64),
     MulSmall(u64),
     CloneToB,
+    /// b.clone_from(&a): overwrite an existing vector in place
+    CloneFromA,
+    /// a.clone_from(&b)
+    CloneFromB,
     Swap,
     Write(usize, u64),
     FromU64(u64),
